@@ -60,6 +60,7 @@ type PfcpServer struct {
 	txSeq        uint32
 	log          *logrus.Entry
 	started      bool
+	ready        chan struct{} // closed when the event loop has opened its socket (or has given up)
 	done         chan struct{} // closed when the event loop has exited
 }
 
@@ -78,7 +79,20 @@ func NewPfcpServer(cfg *factory.Config, driver forwarder.Driver) *PfcpServer {
 		txTrans:      make(map[string]*TxTransaction),
 		rxTrans:      make(map[string]*RxTransaction),
 		log:          logger.PfcpLog.WithField(logger_util.FieldListenAddr, listen),
+		ready:        make(chan struct{}),
 		done:         make(chan struct{}),
+	}
+}
+
+// markReady is called by the event loop only
+func (s *PfcpServer) markReady() {
+	if s.ready == nil {
+		return
+	}
+	select {
+	case <-s.ready:
+	default:
+		close(s.ready)
 	}
 }
 
@@ -90,6 +104,7 @@ func (s *PfcpServer) main(wg *sync.WaitGroup) {
 		}
 
 		s.log.Infoln("pfcp server stopped")
+		s.markReady()
 		s.stopTrTimers()
 		close(s.rcvCh)
 		// report producers and timer callbacks may still be posting: release them instead of
@@ -113,6 +128,7 @@ func (s *PfcpServer) main(wg *sync.WaitGroup) {
 		return
 	}
 	s.conn = conn
+	s.markReady()
 
 	wg.Add(1)
 	go s.receiver(wg)
@@ -237,6 +253,11 @@ func (s *PfcpServer) Start(wg *sync.WaitGroup) {
 
 func (s *PfcpServer) Stop() {
 	s.log.Infoln("Stopping pfcp server")
+	// a Stop right after Start must not find the socket still unopened: it would have nothing to
+	// close and then wait for a loop that keeps serving
+	if s.started && s.ready != nil {
+		<-s.ready
+	}
 	if s.conn != nil {
 		err := s.conn.Close()
 		if err != nil {
